@@ -89,3 +89,56 @@ pub fn aead_setup_rfc9580(
         crate::crypto::aead::aead_setup_rfc9580(sym_alg, aead, chunk_size, salt, ikm);
     (info, key.to_vec(), nonce)
 }
+
+// ---- C07 (key generation) ------------------------------------------------------------------
+
+/// `types::params::plain_secret::pad_key::<SIZE>` for the scalar sizes the crate instantiates it at
+/// (`None` for an error or for a size that is not instantiated here).
+pub fn pad_key(size: usize, val: &[u8]) -> Option<Vec<u8>> {
+    use crate::types::pad_key;
+    match size {
+        32 => pad_key::<32>(val).ok().map(|a| a.to_vec()),
+        48 => pad_key::<48>(val).ok().map(|a| a.to_vec()),
+        56 => pad_key::<56>(val).ok().map(|a| a.to_vec()),
+        57 => pad_key::<57>(val).ok().map(|a| a.to_vec()),
+        66 => pad_key::<66>(val).ok().map(|a| a.to_vec()),
+        _ => None,
+    }
+}
+
+// ---- C19 (bounded work and memory) -------------------------------------------------------
+
+/// `parsing_reader::BufReadParsing::take_bytes` (the trait lives in a private module).
+pub fn take_bytes<B: std::io::BufRead>(b: &mut B, size: usize) -> std::io::Result<bytes::BytesMut> {
+    use crate::parsing_reader::BufReadParsing;
+    b.take_bytes(size)
+}
+
+/// `parsing_reader::BufReadParsing::rest` (`Vec::new()` + `read_to_end`).
+pub fn rest<B: std::io::BufRead>(b: &mut B) -> std::io::Result<bytes::BytesMut> {
+    use crate::parsing_reader::BufReadParsing;
+    b.rest()
+}
+
+// ---- C04 (hostile input never panics) ---------------------------------------------------------
+
+/// `crypto::aead::aead_setup_rfc9580` for raw octets: lengths of (message key, nonce).
+/// `None` when the chunk-size octet is not a `ChunkSize`.
+pub fn aead_setup_rfc9580_lens(sym: u8, aead: u8, chunk_size: u8) -> Option<(usize, usize)> {
+    let cs = crate::crypto::aead::ChunkSize::try_from(chunk_size).ok()?;
+    let (_info, key, nonce) = crate::crypto::aead::aead_setup_rfc9580(
+        sym.into(),
+        aead.into(),
+        cs,
+        &[0u8; 32],
+        &[0u8; 32],
+    );
+    Some((key.len(), nonce.len()))
+}
+
+/// `packet::signature::SubpacketLength::try_from_reader`: (decoded length, octets consumed).
+pub fn subpacket_length(data: &[u8]) -> crate::errors::Result<(usize, usize)> {
+    let mut r = data;
+    let l = crate::packet::SubpacketLength::try_from_reader(&mut r)?;
+    Ok((l.len(), data.len() - r.len()))
+}
